@@ -43,6 +43,9 @@ class Env:
         """append a real signature by [key] to the in-toto metadata object and record what it was made over"""
         from in_toto.models._signer import GPGSigner
         from in_toto.models.metadata import Metablock
+        if key.kind == "gpg" and key.gpg_keyid == hk.GPG_EXPIRED:
+            # the expired test key signs only under a faked gpg clock
+            return self.gpg_sign(md, key.gpg_keyid + "!", faked=hk.GPG_EXPIRED_FAKED_TIME)
         if key.kind == "gpg":
             signer = GPGSigner(keyid=key.gpg_keyid, homedir=self.gpg.home)
             msg = md.signed.signable_bytes
@@ -342,6 +345,10 @@ class Builder:
                 em, ep, cmd = self.ph_step(i, names, em, ep, cmd, M, P)
             steps.append(Step(name=name, pubkeys=[k.keyid for k in fkeys], threshold=thr,
                               expected_materials=em, expected_products=ep, expected_command=cmd))
+            if self.o.get("thr_zero") and rng.random() < 0.35:
+                # an optional step: threshold 0, set after construction (as a layout author editing the object would)
+                steps[-1].threshold = 0
+                self.tags.append("threshold_zero")
             if self.late_ep:
                 late.append((len(steps) - 1, self.late_ep))
             others = [x for x in names if x != name]
@@ -380,11 +387,14 @@ class Builder:
                 inspections.append(Inspection(name=iname, run=run, expected_materials=ie, expected_products=iprod))
         expires = EXPIRES
         if variant == "expired":
-            expires = rng.choice(["2020-01-01T00:00:00Z", "2026-09-26T12:00:00Z", "2026-09-26T11:59:59Z"])
+            # (earlier calendar day with a later time of day than the clock: an instant is not compared field by field)
+            expires = rng.choice(["2020-01-01T00:00:00Z", "2026-09-26T12:00:00Z", "2026-09-26T11:59:59Z",
+                                  "2026-09-25T23:59:59Z", "2025-12-31T18:30:00Z", "2026-08-27T12:00:01Z"])
             self.tags.append("layout_expired")
         elif self.o.get("boundary") and rng.random() < self.o.get("boundary_p", 0.5):
             expires = rng.choice(["2026-09-26T12:00:01Z", "2026-09-26T12:00:00Z", "2026-09-26T11:59:59Z",
-                                  "2024-02-29T00:00:00Z", "2028-02-29T23:59:59Z", "9999-12-31T23:59:59Z", "0001-01-01T00:00:00Z"])
+                                  "2024-02-29T00:00:00Z", "2028-02-29T23:59:59Z", "9999-12-31T23:59:59Z", "0001-01-01T00:00:00Z",
+                                  "2026-09-25T12:00:01Z", "2026-09-27T11:59:59Z", "2025-09-26T23:00:00Z", "2027-01-01T00:00:00Z"])
             self.tags.append("boundary:" + expires)
         elif self.o.get("near_expiry") and rng.random() < 0.7:
             # expiry within a day of now, either side: a clock read in another zone shows here
@@ -473,7 +483,7 @@ class Builder:
                   [["MATCH", "*", "IN", "{%s}" % self.ph_name("D", ""), "WITH", "MATERIALS", "IN", g("P2"), "FROM", name], ["ALLOW", "*"]]][k]
             if k == 5:
                 self.ph_generic("P1")
-        r = rng.random()
+        r = rng.random() if self.o.get("ph_invalid", True) else 1.0
         if r < 0.04:
             # a placeholder where a keyword must stand: the loader rejects the layout
             self.tags.append("ph:keyword")
@@ -931,8 +941,9 @@ def build(rng, env, opts, workdir):
         # "sign": a gpg master key among the owners (traditional format only: in-toto cannot make a gpg
         # signature over a DSSE envelope); "supply": the layout is signed by sslib owners only, the gpg
         # key is just handed to the verifier; "other": signed by the master, verified with another master
-        gk = env.gpg.master()
-        if gpg_mode == "sign" or (gpg_mode == "other" and not root_dsse):
+        # "expired": signed (under a faked clock) by a master key whose validity period is over, which the verifier supplies
+        gk = env.gpg.expired() if gpg_mode == "expired" else env.gpg.master()
+        if gpg_mode in ("sign", "expired") or (gpg_mode == "other" and not root_dsse):
             root_dsse = False
             owners = rng.choice([[gk], [gk] + owners[:1], owners[:1] + [gk]])
         b.tags.append("gpg_" + gpg_mode)
